@@ -1196,7 +1196,12 @@ def check_call(
         )
         raise GuppyTypeInferenceError(err)
 
-    # Success implies that the substitution is closed
+    # Variables of the expected type can be solved after variables that mention them,
+    # so apply the solution to itself until it is closed
+    for _ in range(len(subst)):
+        if all(not t.unsolved_vars for t in subst.values()):
+            break
+        subst = {x: t.substitute(subst) for x, t in subst.items()}
     assert all(not t.unsolved_vars for t in subst.values())
     inst = check_all_solved(subst, free_vars, func_ty, node)
     subst = {v: t for v, t in subst.items() if v in ty.unsolved_vars}
